@@ -161,6 +161,11 @@ def units():
             Unit("step_covariance", "tdgl.solver.solver:TDGLSolver.solve_for_psi_squared", run_step, props=["C04"], timeout=600)]
 
 
+def replay_scope(unit, obl):
+    """the native replay of this property searches per unit, not per obligation: run it once per unit"""
+    return "unit"
+
+
 def replay(unit, obl):
     from checks import c04_native
     return c04_native.replay(unit, obl)
